@@ -738,7 +738,13 @@ def c11(pid, tier, seed, selftest=False):
         rep.case(key_of(s), e.get("plen", 65636) > e.get("cs", 65536))
     for s in scenarios[:1] + scenarios[-2:]:
         rep.sample(s)
+    # TLC's integers are 32-bit: runs of 2 GiB and more are recorded in the same way and judged by the same predicates in
+    # 64-bit arithmetic (st.wide_monitor), everything else by TLC
+    wide = [s for s in scenarios if s.get("plen", 0) >= (1 << 31) - (1 << 22)]
+    scenarios = [s for s in scenarios if s not in wide]
     runs = st.run_and_validate(rep, pid, "big", scenarios, tpl, seed, nproc=len(scenarios))
+    if wide:
+        st.run_wide(rep, pid, "wide", wide, tpl, seed)
     if thorough or selftest:
         # the same clause at the process boundary: peak RSS of the real binary, large vs small input
         import checks_cli
